@@ -492,6 +492,13 @@ pub fn decode_spec(t: &mut Tape, p: &Profile) -> GraphSpec {
             }
         }
     }
+    // occasionally a single-edge call that the builder must reject (the reverse of an
+    // accepted edge, given after it): the caller ignores the error and carries on, the
+    // graph that is built and run is the same as without that call
+    if !wide && !edges.is_empty() && t.chance(1, 10) {
+        let e = edges[t.below(edges.len())];
+        edges.push((e.1, e.0, kind(t)));
+    }
     // occasionally a batch call after the single ones: it may repeat an existing
     // pair and may contain a cycle-closing pair, which the builder must reject
     // without touching the edges accepted earlier
